@@ -503,6 +503,10 @@ def _mk_keys(s, rng, kt, count, lens=None):
     if kt in ("u64", "i64", "vu64"):
         return typed_keys(s, rng, kt, count)
     out = []
+    if count >= 8 and not lens:
+        k = s.key(0)                      # the empty key is a key like any other
+        if k:
+            out.append(k)
     while len(out) < count:
         k = s.key(rng.choice(lens or [1, 4, 8, 10, 11, 16, 30, 100]))
         if k:
@@ -554,8 +558,10 @@ def gen_reopen(seed, idbase=0, nops=300, nkeys=40, nb=("BucketsSize", 64), kt="b
             s.op("put", h=rng.choice(hs), k=k, v=rng.choice(vids))
         elif r < 0.75:
             s.op("del", h=rng.choice(hs), k=k)
-        elif r < 0.88:
+        elif r < 0.85:
             s.op("get", h=rng.choice(hs), k=k)
+        elif r < 0.89:
+            s.op("iter", h=rng.choice(hs), flavour=rng.choice(FLAVOURS))
         elif r < 0.94:
             s.op(rng.choice(["flush", "sync_all", "sync_data", "db_sync_all", "db_sync_data"]), **({"h": 1} if True else {}))
             if s.ops[-1]["op"].startswith("db_"):
@@ -894,7 +900,12 @@ def gen_multi(seed, idbase=0, nops=250, nmaps=3, name="multi"):
         elif r < 0.92:
             s.op("len", h=rng.choice(m["hs"]))
         elif r < 0.96:
-            s.op("iter", h=rng.choice(m["hs"]), flavour=rng.choice(FLAVOURS))
+            if rng.random() < 0.6:
+                # between two steps of the traversal, read-only calls go through ANOTHER handle of the same map
+                s.op("iter", h=rng.choice(m["hs"]), flavour=rng.choice(FLAVOURS),
+                     interleave=rng.sample(["len", "is_empty", "new_iter", "get", "includes"], rng.randrange(1, 4)), probe=m["keys"][:5])
+            else:
+                s.op("iter", h=rng.choice(m["hs"]), flavour=rng.choice(FLAVOURS))
         else:
             s.op(rng.choice(["flush", "sync_all"]), h=h)
         if check_others:
@@ -1169,7 +1180,12 @@ def gen_wrongtype(seed, idbase=0, pairs=None, sigvals=4, name="wrongtype"):
         nonlocal tagn
         tagn += 1
         s.op("digest", dir=d, name=nm, tag="pre%d" % tagn)
-        s.op("child_dump", dir=d, name=nm, kt=kt, note=what, ks=[])
+        # the open parameters (also an explicit bucket count other than the stored one) must not matter
+        prm = rng.choice(REOPEN_PARAMS[:6] + [{"buckets": ["BucketsSize", 64]}, {"buckets": ["Capacity", 100]}])
+        if prm:
+            s.op("child_dump", dir=d, name=nm, kt=kt, note=what, ks=[], params=prm)
+        else:
+            s.op("child_dump", dir=d, name=nm, kt=kt, note=what, ks=[])
         s.op("digest", dir=d, name=nm, tag="post%d" % tagn)
         if only:
             s.op("note", conj="C13.unchanged", same=["pre%d" % tagn, "post%d" % tagn], only=only)
@@ -1185,6 +1201,10 @@ def gen_wrongtype(seed, idbase=0, pairs=None, sigvals=4, name="wrongtype"):
         keysof[kt] = _mk_keys(s, rng, kt, 4)
         for k in keysof[kt]:
             s.op("put", h=i + 1, k=k, v=rng.choice(vids))
+        if i % 2 == 1:
+            # every second map is emptied again: its files hold no entry (item count 0), only free slots
+            for k in keysof[kt]:
+                s.op("del", h=i + 1, k=k)
     s.op("new_process")
     s.op("copy_dir", **{"from": "d", "to": "bak"})
     # (1) every ordered pair of key types
